@@ -103,10 +103,23 @@ CLAUSES = ["absurd_request_is_out_of_bounds", "advertised_inclusion_equals_enfor
            "admitted_power_processed", "admitted_power_at_least_sum_of_group_minimums"]
 
 
+def asymmetric(g, bat_scale, inv_scale):
+    """The same group with lower bounds scaled (exclusion and inclusion zone asymmetric around zero)."""
+    from dataclasses import replace
+
+    return dist.GroupSpec(tuple(replace(b, lower_scale=bat_scale) for b in g.bats),
+                          tuple(replace(i, lower_scale=inv_scale) for i in g.invs))
+
+
 def shard(args) -> Acc:
     tier, n, lo, hi = args
     acc = Acc()
     firsts = c01.first_specs(tier, 1 if n < 3 else 3)[lo:hi]
+    if n < 3:
+        # bounds that are not symmetric around zero: on the batteries, on the inverters
+        extra = [asymmetric(g, bs, is_) for g in firsts for bs, is_ in ((0.5, 1.0), (1.0, 0.5))
+                 if all(b.lower_scale == 1.0 for b in g.bats)]
+        firsts = firsts + [g for g in extra if dist.consistent([g])]
     if n == 1:
         combos = [()]
     elif n == 2:
@@ -157,8 +170,8 @@ def run(tier: str, seed: int, workers: int):
     acc = pmap_acc(shard, shards, workers)
     meta = {
         "rule": "every bounds-distinct configuration of the C01 grid (1-2 groups quick, 1-3 thorough; shared inverters = two "
-        "batteries behind one inverter, shared batteries = one battery behind two inverters, 2x2) with symmetric and "
-        "scaled lower bounds; per configuration the real PowerBoundsCalculator output is compared with the real "
+        "batteries behind one inverter, shared batteries = one battery behind two inverters, 2x2) with symmetric bounds and with "
+        "lower bounds scaled by 0.5 on the batteries or on the inverters (exclusion zone not symmetric around zero); per configuration the real PowerBoundsCalculator output is compared with the real "
         "BatteryManager's answers for every power on, one below and one above each advertised bound, with adjust_power "
         "True and False; non-trivial = more than one group or a shared inverter/battery",
         "assumptions": [
